@@ -266,6 +266,61 @@ static void scenarioPeriodic(vt::Trace &tr, int threads)
     tr.emit(json{{"e", "TerminateSeen"}, {"pollers", threads - 1}, {"seen", seen.load()}, {"sticky", true}});
 }
 
+// terminate() from another thread on the PERIODIC form, landing while the evaluator thread is inside
+// the predicate (made deterministic: the predicate blocks until terminate() has returned): once
+// terminate() has returned, eval() must be true and stay true
+static void scenarioPeriodicTerminate(vt::Trace &tr, int rounds)
+{
+    int seen = 0;
+    bool sticky = true;
+    for (int round = 0; round < rounds; ++round)
+    {
+        std::atomic<int> inPredicate{0};
+        std::atomic<bool> terminated{false};
+        long stickyPolls = 0;
+        {
+            ob::PlannerTerminationCondition ptc(
+                [&] {
+                    ++inPredicate;
+                    // hold the evaluator thread inside the predicate until terminate() has returned
+                    for (long spin = 0; !terminated && spin < 2000000000L; ++spin)
+                        std::this_thread::yield();
+                    return false;
+                },
+                0.001);
+            parallel(2, [&](int i) {
+                if (i == 0)
+                {
+                    while (inPredicate == 0)
+                        std::this_thread::yield();
+                    ptc.terminate();
+                    terminated = true;
+                }
+                else
+                {
+                    while (!terminated)
+                        std::this_thread::yield();
+                    // give the evaluator thread time to leave the predicate and store its result
+                    std::this_thread::sleep_for(std::chrono::milliseconds(3));
+                    bool all = true;
+                    for (int k = 0; k < 200; ++k)
+                    {
+                        all = all && ptc.eval();
+                        ++stickyPolls;
+                    }
+                    if (all)
+                        ++seen;
+                    else
+                        sticky = false;
+                }
+            });
+        }
+        (void)stickyPolls;
+    }
+    flush(tr, "periodic-terminate");
+    tr.emit(json{{"e", "TerminateSeen"}, {"pollers", rounds}, {"seen", seen}, {"sticky", sticky}});
+}
+
 // queries on a shared thread-safe GNAT built beforehand
 static void scenarioGnat(vt::Trace &tr, int threads, long calls)
 {
@@ -441,6 +496,8 @@ int main(int argc, char **argv)
         scenarioTerminate(tr, threads);
     else if (sc == "periodic")
         scenarioPeriodic(tr, threads);
+    else if (sc == "periodic-terminate")
+        scenarioPeriodicTerminate(tr, threads);
     else if (sc == "gnat")
         scenarioGnat(tr, threads, calls);
     else if (sc == "solutions")
